@@ -1047,11 +1047,11 @@ func (fi *FuncInfo) okTested(gs []Cond, d *defSite) bool {
 			// the flag must not have been reassigned between this definition and the test
 			redefined := false
 			for _, d2 := range fi.defs[okVar] {
-				if d2.node.Pos() > as.Pos() && d2.node.Pos() < g.At.Pos() {
+				if startOf(d2.node) > startOf(as) && startOf(d2.node) < startOf(g.At) {
 					redefined = true
 				}
 			}
-			if !redefined && g.At.Pos() > as.Pos() {
+			if !redefined && startOf(g.At) > startOf(as) {
 				// and it is the nearest definition before the test
 				return true
 			}
@@ -1077,7 +1077,18 @@ func (fi *FuncInfo) hasPairCheck() (bool, string) {
 		}
 		// insertion form: every new input is compared with all inputs kept so far, then appended
 		//   for _, prev := range S { if Identical(x, prev.Type) { return error } }; S = append(S, T{Type: x, …})
-		if in, ok := fi.enclosingLoop(is).(*ast.RangeStmt); ok && in.Value != nil && terminates(is.Body) && len(in.Body.List) == 1 {
+		onlyDefsBeside := func(list []ast.Stmt) bool {
+			for _, st := range list {
+				if st == ast.Stmt(is) {
+					continue
+				}
+				if as, ok := st.(*ast.AssignStmt); !ok || as.Tok != token.DEFINE {
+					return false // something else happens in the comparison loop
+				}
+			}
+			return true
+		}
+		if in, ok := fi.enclosingLoop(is).(*ast.RangeStmt); ok && in.Value != nil && terminates(is.Body) && fi.parent[is] == ast.Node(in.Body) && onlyDefsBeside(in.Body.List) {
 			prev := fi.varOf(in.Value)
 			var x ast.Expr
 			for i, a := range id.Args {
@@ -1108,7 +1119,7 @@ func (fi *FuncInfo) hasPairCheck() (bool, string) {
 						}
 						if cl, ok := ast.Unparen(ap.Args[1]).(*ast.CompositeLit); ok {
 							for _, el := range cl.Elts {
-								if kv, ok := el.(*ast.KeyValueExpr); ok && kv.Key.(*ast.Ident).Name == "Type" && fi.sameExpr(kv.Value, x) {
+								if kv, ok := el.(*ast.KeyValueExpr); ok && kv.Key.(*ast.Ident).Name == "Type" && (fi.sameExpr(kv.Value, x) || fi.sameExpr(fi.deref(kv.Value), fi.deref(x))) {
 									appended = true
 								}
 							}
